@@ -266,6 +266,8 @@ def parse_params(p: P):
         if p.accept_op('='):
             skip_default(p)
             has_default = True
+        if kind == 'VariadicParam':
+            ty = ['array', ty]      # the schema stores VARIADIC x: T as a parameter of type array<T>
         params.append({'name': name, 'kind': kind, 'typemod': tm, 'type': ty, 'default': has_default})
         if p.accept_op(','):
             if p.peek()[1] == ')':        # trailing comma
@@ -501,6 +503,18 @@ def translate(repo):
         for prm in f['params']:
             check_type(prm['type'], f'{f["name"]} at {f["line"]}')
         check_type(f['ret'], f'{f["name"]} at {f["line"]}')
+    # edb/schema/functions.py::canonical_param_sort: NAMED ONLY (sorted by name) first, then
+    # positional in declaration order, then the VARIADIC one
+    for f in opers + funcs:
+        ps = f['params']
+        named = sorted([q for q in ps if q['kind'] == 'NamedOnlyParam'], key=lambda q: q['name'])
+        pos = [q for q in ps if q['kind'] == 'PositionalParam']
+        var = [q for q in ps if q['kind'] == 'VariadicParam']
+        _need(len(var) <= 1, f'{f["name"]}: more than one VARIADIC parameter')
+        f['params'] = named + pos + var
+    ob = {n: o['bases'] for n, o in objtypes.items()}
+    for n in objtypes:
+        objtypes[n]['ancestors'] = c3(n, ob, ob_memo)[1:]
     names = {o['name'] for o in opers}
     for o in opers:
         if o['derivative_of'] is not None:
